@@ -38,6 +38,8 @@ KIND_OF = {PO: inspect.Parameter.POSITIONAL_ONLY, PK: inspect.Parameter.POSITION
            VK: inspect.Parameter.VAR_KEYWORD}
 FLAVOURS = ['function', 'method', 'classmethod', 'staticmethod', 'init', 'wraps',
             'wraps_method', 'wraps_classmethod', 'plainwrap_method']
+# wrappers that forward only *args or only **kwargs: decided by a table of calls, in turn
+ONE_STAR_FLAVOURS = ['args_only', 'kwargs_only', 'args_only_wraps', 'kwargs_only_wraps']
 NAMES = ['alpha', 'beta', 'gamma', 'delta', 'eps', 'zeta']
 DOCS = [None, '"Build the target."', "'bisect helper'", '"""Buffer of bytes."""', '"Raw looking r text"', "'u is for unicode'",
         '"""One line."""', "'''Single quotes.'''", '"one-liner"',
@@ -70,7 +72,7 @@ def plan(tier, seed):
     i = 0
     for si, s in enumerate(sh):
         # the six basic flavours for every shape, the three wrapper-around-a-method ones in turn
-        for fl in FLAVOURS[:6] + [FLAVOURS[6 + si % 3]]:
+        for fl in FLAVOURS[:6] + [FLAVOURS[6 + si % 3]] + [ONE_STAR_FLAVOURS[si % 4]]:
             rnd = random.Random('%s/C11/%d' % (seed, i))
             specs.append({'id': 'c11-%d' % i, 'shape': s, 'flavour': fl,
                           'plen': 2 if tier == 'quick' else 3,
@@ -145,6 +147,13 @@ def build_definition(spec):
     elif fl == 'wraps':
         lines.append('def deco(fn):\n    @functools.wraps(fn)\n    def wrapper(*args, **kwargs):\n'
                      '        return fn(*args, **kwargs)\n    return wrapper\n\n')
+        lines.append('@deco\ndef target(%s)%s:\n%s' % (params, ret, body))
+        call = 'target'
+    elif fl in ONE_STAR_FLAVOURS:
+        star = '*args' if fl.startswith('args') else '**kwargs'
+        wr = '    @functools.wraps(fn)\n' if fl.endswith('wraps') else ''
+        lines.append('def deco(fn):\n%s    def wrapper(%s):\n        return fn(%s)\n    return wrapper\n\n'
+                     % (wr, star, star))
         lines.append('@deco\ndef target(%s)%s:\n%s' % (params, ret, body))
         call = 'target'
     elif fl in ('wraps_method', 'wraps_classmethod', 'plainwrap_method'):
@@ -310,6 +319,8 @@ def run(spec):
         res['inconclusive'] = ['generated definition does not execute: %s' % type(e).__name__]
         res['harness_error'] = repr(e) + '\n' + src
         return res
+    if spec['flavour'] in ONE_STAR_FLAVOURS:
+        return _run_one_star(spec, rec, res, src, call, obj, names, ns)
     real_params = [(p.name, {v: k for k, v in KIND_OF.items()}[p.kind]) for p in real.parameters.values()]
     case_dir = os.path.join(os.environ.get('VERIF_RUN_DIR', '/var/tmp'), 'cases')
     os.makedirs(case_dir, exist_ok=True)
@@ -408,6 +419,87 @@ def run(spec):
     res['events'] = {k: v for k, v in rec.events.items() if not k.startswith('call:')}
     res['sample'] = {'case': spec['id'], 'flavour': spec['flavour'], 'shape': spec['shape'],
                      'signature': str(real), 'index_cells': rec.events.get('c11:index_cells', 0)}
+    return res
+
+
+def _run_one_star(spec, rec, res, src, call, obj, names, ns):
+    """A wrapper that forwards only *args (or only **kwargs): the statement's criterion itself is
+    the oracle - exactly the calls that bind against the reported signature run without
+    TypeError - over a table of calls (0..n+1 positionals x keyword subsets incl. an unknown one)."""
+    case_dir = os.path.join(os.environ.get('VERIF_RUN_DIR', '/var/tmp'), 'cases')
+    os.makedirs(case_dir, exist_ok=True)
+    w = {'case': spec['id'], 'flavour': spec['flavour'], 'definition': src, 'call': call}
+    text = src + call + '('
+    path = os.path.join(case_dir, '%s-1.py' % spec['id'])
+    ok, script = apimon.call(rec, 'Script', jedi.Script, text, path=path, witness=w)
+    if not ok:
+        return res
+    ok, sigs = apimon.call(rec, 'get_signatures', script.get_signatures, src.count('\n') + 1, len(call) + 1,
+                           witness=w)
+    if not ok:
+        return res
+    rec.ev('c11:signature_lists')
+    if len(sigs) != 1:
+        rec.violate('c11:signature_count', '%d signatures for %s (flavour %s)' % (len(sigs), call, spec['flavour']), **w)
+        return _finish_one_star(spec, rec, res, 0)
+    sig = sigs[0]
+    try:
+        reported = inspect.Signature([
+            inspect.Parameter(p.name, p.kind, default=(0 if '=' in p.to_string() and p.kind not in (
+                inspect.Parameter.VAR_POSITIONAL, inspect.Parameter.VAR_KEYWORD) else inspect.Parameter.empty))
+            for p in sig.params])
+    except ValueError as e:
+        rec.violate('c11:reported_signature_malformed', 'the reported parameters %s do not form a signature: %s'
+                    % ([(p.name, str(p.kind)) for p in sig.params], e), **w)
+        return _finish_one_star(spec, rec, res, 0)
+    kw_pool = [n for n in names][:4] + ['zz_unknown']
+    n = len(names)
+    compared = 0
+    table = []
+    for npos in range(0, n + 2):
+        for r in range(0, 3):
+            for kws in itertools.combinations(kw_pool, r):
+                a = tuple(range(npos))
+                k = {x: 1 for x in kws}
+                try:
+                    obj(*a, **k)
+                    table.append((npos, kws, True))
+                except TypeError:
+                    table.append((npos, kws, False))
+    if not any(t[2] for t in table):
+        # the wrapped callable requires a parameter this wrapper cannot forward: no call runs at
+        # all and no signature could say so; outside the statement's criterion
+        rec.ev('c11:wrapper_never_callable_not_claimed')
+        return _finish_one_star(spec, rec, res, 0)
+    for npos, kws, runs in table:
+        for _once in (1,):
+            for _once2 in (1,):
+                a = tuple(range(npos))
+                k = {x: 1 for x in kws}
+                try:
+                    reported.bind(*a, **k)
+                    binds = True
+                except TypeError:
+                    binds = False
+                compared += 1
+                rec.ev('c11:wrapper_calls_compared')
+                if runs != binds:
+                    rec.violate('c11:one_star_wrapper_calls', 'the call (%d positional, keywords %s) %s at run '
+                                'time but %s against the reported signature %s'
+                                % (npos, list(kws), 'runs' if runs else 'raises TypeError',
+                                   'binds' if binds else 'does not bind', sig.to_string()), **w)
+                    return _finish_one_star(spec, rec, res, compared)
+    return _finish_one_star(spec, rec, res, compared)
+
+
+def _finish_one_star(spec, rec, res, compared):
+    res['violations'] = [v for v in rec.violations if v['key'].startswith('c11')]
+    res['nontrivial'] = compared >= 5
+    if not compared and not res['violations']:
+        res['inconclusive'] = ['wrapper can never be called (a required parameter cannot be forwarded)']
+    res['events'] = {k: v for k, v in rec.events.items() if not k.startswith('call:')}
+    res['sample'] = {'case': spec['id'], 'flavour': spec['flavour'], 'shape': spec['shape'],
+                     'wrapper_calls_compared': compared}
     return res
 
 
